@@ -205,6 +205,11 @@ def main():
         sys.exit(2)
     spec = props.PROPS[pid]
     ensure_engine()
+    for g in spec.get("pregen", []):
+        r = subprocess.run([sys.executable, os.path.join(ROOT, g)], capture_output=True, text=True, env=dict(os.environ, VERIF_REPO=REPO))
+        log(pid, "pregen " + g + ": " + (r.stdout + r.stderr).strip())
+        if r.returncode != 0:
+            sys.exit(2)
     t0 = time.time()
     workdir = tempfile.mkdtemp(prefix=f"verif_{pid}_", dir=os.environ.get("VERIF_TMP", "/var/tmp"))
     try:
